@@ -134,32 +134,87 @@ theorem write_fmt_exact (bss : List (List Nat)) (script : List WResp)
 `print!`/`eprint!` (`ln = false`) or `println!`/`eprintln!` (`ln = true`), `printSeq` several expansions in a row
 (`dbg!(a, b)`).  The kernel's answers are the script; `pos`/`isZero`/`isErr` classify an answer as a positive count,
 `0`, or an error (EINTR included — `try_print` does not retry, it reports `fmt::Error`).  `o.calls script` pairs every
-consumed answer with the size of the buffer that call offered (the model's log); `badZero` = the answer `0` to a
-non-empty buffer (`0` for a zero-length write — an empty piece, `print!("")` — is the normal answer and is covered).
+consumed answer with the size of the buffer that call offered (the model's log); a call is `failing` when its
+answer is an error or `0` although a non-empty buffer was offered (`badZero`; `0` for a zero-length write — an empty
+piece, `print!("")` — is the normal answer and is not a failure).
 
-`…_partial`: the statements exclude exactly one input class, a `write` that returns `0` for a non-empty buffer; for
-that class the property fails in the code (`print_zero_return_loses_bytes`, a known finding). -/
+The statements hold for EVERY script of answers.  Before the `fix:` commit e1fd457 they were false for one input
+class, a `write` answering `0` to a non-empty buffer: `try_print` then returned `Ok`, the rest of the piece was
+dropped and later pieces still written (`Legacy.tryPrint`, witness `print_zero_return_loses_bytes`). -/
 
 /-- **try_print_exact.** For every piece and every script of kernel answers: the descriptor receives a prefix of the
-piece, in order, each byte once; the function never panics; it returns `Err` exactly when the last answer it
-consumed was an error, every earlier answer having been a positive (short) count; and if no consumed answer
-was `0` for a non-empty buffer, `Ok` means that the whole piece was delivered.  Unconsumed answers are left for the next call. -/
+piece, in order, each byte once; the function never panics; `Ok` means that the whole piece was delivered; it returns
+`Err` exactly when the last answer it consumed was an error or `0` for a non-empty rest, every earlier answer having
+been a positive (short) count, and it issues no `write` after that answer.  Unconsumed answers are left for the next
+call. -/
 theorem try_print_exact (data : List Nat) (script : List WResp) :
     PSpec data script (tryPrint data script) := tryPrint_spec script data
 
-/-- **print_fmt_exact_partial.** For every sequence of `write_str` pieces and every script: unless a consumed answer
-was `0` for a non-empty buffer, the descriptor receives a prefix of the concatenated pieces, in order, each byte once — all of it when the
-result is `Ok`; `Err` only if the kernel returned an error. -/
-theorem print_fmt_exact_partial (bss : List (List Nat)) (script : List WResp) :
+/-- the result of `try_print` is decided by the calls alone: `Ok` exactly when no call failed -/
+theorem try_print_ok_iff (data : List Nat) (script : List WResp) :
+    (tryPrint data script).res = .ok () ↔ ∀ c ∈ (tryPrint data script).calls script, failing c = false :=
+  (tryPrint_spec script data).ok_iff
+
+/-- **print_fmt_exact.** `fmt::write` into the `__UnixWriter`, for every sequence of `write_str` pieces and every
+script: the descriptor receives a prefix of the concatenated pieces, in order, each byte once — all of it when the
+result is `Ok`; the result is `Err` exactly when some call failed, and then that call is the first failing one and
+the last `write` issued: neither the rest of its piece nor any later piece is written. -/
+theorem print_fmt_exact (bss : List (List Nat)) (script : List WResp) :
     FSpec bss script (printFmt (bss.map .str) script) := printFmt_spec bss script
 
-/-- **print_macro_in_order_partial.** One `print!`/`println!`/`eprint!`/`eprintln!`: unless a consumed answer was `0`
-for a non-empty buffer, what reaches the descriptor is a prefix of the rendered message followed by a prefix of the newline (for the `ln`
-forms) — never bytes out of order, never a byte twice, never a hole inside the message. -/
-theorem print_macro_in_order_partial (ln : Bool) (bss : List (List Nat)) (script : List WResp)
-    (hz : ∀ c ∈ (printMacro ln (bss.map .str) script).calls script, badZero c = false) :
+theorem print_fmt_ok_iff (bss : List (List Nat)) (script : List WResp) :
+    (printFmt (bss.map .str) script).res = .ok () ↔
+      ∀ c ∈ (printFmt (bss.map .str) script).calls script, failing c = false :=
+  (printFmt_spec bss script).ok_iff
+
+/-- **print_exact** (`print!`/`eprint!`).  For every script: what reaches the descriptor is a prefix of the rendered
+message, in order, each byte once; and it is the whole message, unless a `write` failed or answered `0` for a
+non-empty buffer — in which case `write_fmt` reports the error (the macro discards it), that call is the first such
+call and the last call made: nothing is written after it. -/
+theorem print_exact (bss : List (List Nat)) (script : List WResp) :
+    (printMacro false (bss.map .str) script).sink =
+      bss.flatten.take (printMacro false (bss.map .str) script).sink.length ∧
+    ((printMacro false (bss.map .str) script).sink = bss.flatten ∨
+      ((printMacro false (bss.map .str) script).res = .err .formatter ∧
+       (printMacro false (bss.map .str) script).log.length = (printMacro false (bss.map .str) script).used ∧
+       ∃ p c, (printMacro false (bss.map .str) script).calls script = p ++ [c] ∧ failing c = true ∧
+         ∀ x ∈ p, failing x = false)) := by
+  have s := printFmt_spec bss script
+  have e : printMacro false (bss.map .str) script = printFmt (bss.map .str) script := by simp [printMacro]
+  rw [e]
+  refine ⟨s.pre, ?_⟩
+  rcases s.noPanic with h | h
+  · exact .inl (s.complete h)
+  · exact .inr ⟨h, s.err _ h⟩
+
+/-- **println_exact** (`println!`/`eprintln!` with arguments), the code as it is: the message part is what
+`write_fmt` delivered (`print_fmt_exact`: a prefix of the message, complete unless a call failed), and
+`__write_newline` is called WHATEVER `write_fmt` returned — exactly one more `write`, of one byte: the newline
+follows the (possibly cut) message if the next answer is a positive count or the script is exhausted, and is lost if
+that answer is an error or `0`. -/
+theorem println_exact (bss : List (List Nat)) (script : List WResp) :
+    FSpec bss script (printFmt (bss.map .str) script) ∧
+    (printMacro true (bss.map .str) script).sink =
+      (printFmt (bss.map .str) script).sink ++ nlPart (printFmt (bss.map .str) script).rest ∧
+    (printMacro true (bss.map .str) script).log = (printFmt (bss.map .str) script).log ++ [1] ∧
+    (printMacro true (bss.map .str) script).used =
+      (printFmt (bss.map .str) script).used + min 1 (printFmt (bss.map .str) script).rest.length :=
+  ⟨printFmt_spec bss script, printMacro_ln _ script⟩
+
+/-- **print_macro_in_order.** One `print!`/`println!`/`eprint!`/`eprintln!`, every script: what reaches the
+descriptor is a prefix of the rendered message followed by a prefix of the newline (for the `ln` forms) — never bytes
+out of order, never a byte twice, never a hole inside the message. -/
+theorem print_macro_in_order (ln : Bool) (bss : List (List Nat)) (script : List WResp) :
     ∃ n m, (printMacro ln (bss.map .str) script).sink = bss.flatten.take n ++ (nlOf ln).take m :=
-  printMacro_form ln bss script hz
+  printMacro_form ln bss script
+
+/-- **print_macro_complete.** If no call failed (no error, no `0` for a non-empty buffer; any pattern of short
+writes, `0` answered to the zero-length writes of empty pieces), the descriptor receives exactly the rendered
+message and the newline. -/
+theorem print_macro_complete (ln : Bool) (bss : List (List Nat)) (script : List WResp)
+    (h : ∀ c ∈ (printMacro ln (bss.map .str) script).calls script, failing c = false) :
+    (printMacro ln (bss.map .str) script).sink = bss.flatten ++ nlOf ln :=
+  printMacro_complete ln bss script h
 
 /-- **print_macro_short_writes_exact.** Under a kernel that only ever takes fewer bytes than offered (any pattern of
 positive counts, no error, no `0`), the descriptor receives exactly the rendered message and the newline, whatever
@@ -170,17 +225,50 @@ theorem print_macro_short_writes_exact (ln : Bool) (bss : List (List Nat)) (scri
   printMacro_short_writes ln bss script h
 
 /-- the same for a sequence of expansions on one descriptor (`dbg!(a, b)`), which continue on the rest of the script -/
+theorem print_seq_complete (ms : List (Bool × List (List Nat))) (script : List WResp)
+    (h : ∀ c ∈ (printSeq (seqItems ms) script).calls script, failing c = false) :
+    (printSeq (seqItems ms) script).sink = seqRender ms :=
+  printSeq_complete ms script h
+
 theorem print_seq_short_writes_exact (ms : List (Bool × List (List Nat))) (script : List WResp)
     (h : ∀ r ∈ script.take (printSeq (seqItems ms) script).used, r.pos = true) :
     (printSeq (seqItems ms) script).sink = seqRender ms :=
   printSeq_short_writes ms script h
 
-/-- **the excluded class is a real defect of the code**: a `write` returning `0` for a non-empty buffer makes
-`try_print` report `Ok`, drop the rest of that piece and carry on with the next piece — "abc" "de" under the answers
-1, 0 reaches the descriptor as "ade", and the macro's result is `Ok`. -/
+/-- **the defect repaired by e1fd457** (witness on the code before the fix, `Legacy`): a `write` returning `0` for a
+non-empty buffer made `try_print` report `Ok`, drop the rest of that piece and carry on with the next piece —
+"abc" "de" under the answers 1, 0 reached the descriptor as "ade" with result `Ok`.  The code as it is now stops
+there: "a" reaches the descriptor, `write_fmt` reports the error, the third answer is left unconsumed. -/
 theorem print_zero_return_loses_bytes :
-    (printFmt [.str [0x61, 0x62, 0x63], .str [0x64, 0x65]] [.accept 1, .accept 0]).sink = [0x61, 0x64, 0x65] ∧
-    (printFmt [.str [0x61, 0x62, 0x63], .str [0x64, 0x65]] [.accept 1, .accept 0]).res = .ok () := by decide
+    ((Legacy.printFmt [.str [0x61, 0x62, 0x63], .str [0x64, 0x65]] [.accept 1, .accept 0, .accept 2]).sink = [0x61, 0x64, 0x65] ∧
+     (Legacy.printFmt [.str [0x61, 0x62, 0x63], .str [0x64, 0x65]] [.accept 1, .accept 0, .accept 2]).res = .ok ()) ∧
+    ((printFmt [.str [0x61, 0x62, 0x63], .str [0x64, 0x65]] [.accept 1, .accept 0, .accept 2]).sink = [0x61] ∧
+     (printFmt [.str [0x61, 0x62, 0x63], .str [0x64, 0x65]] [.accept 1, .accept 0, .accept 2]).res = .err .formatter ∧
+     (printFmt [.str [0x61, 0x62, 0x63], .str [0x64, 0x65]] [.accept 1, .accept 0, .accept 2]).rest = [.accept 2]) := by
+  decide
+
+/-- the code before the fix does not satisfy `print_fmt_exact` / `print_macro_in_order`: its output on the witness
+is not a prefix of the message (and not of the form prefix ++ newline prefix for `println!`) -/
+theorem legacy_print_not_exact :
+    ¬ FSpec [[0x61, 0x62, 0x63], [0x64, 0x65]] [.accept 1, .accept 0]
+      (Legacy.printFmt ([[0x61, 0x62, 0x63], [0x64, 0x65]].map .str) [.accept 1, .accept 0]) ∧
+    ¬ ∃ n m, (Legacy.printMacro true ([[0x61, 0x62, 0x63], [0x64, 0x65]].map .str) [.accept 1, .accept 0]).sink =
+      ([[0x61, 0x62, 0x63], [0x64, 0x65]] : List (List Nat)).flatten.take n ++ (nlOf true).take m := by
+  constructor
+  · intro h
+    have := h.pre
+    revert this
+    decide
+  · have e : (Legacy.printMacro true ([[0x61, 0x62, 0x63], [0x64, 0x65]].map .str) [.accept 1, .accept 0]).sink =
+        [0x61, 0x64, 0x65, 10] := by decide
+    rw [e]
+    rintro ⟨n, m, h⟩
+    have h1 : ([[0x61, 0x62, 0x63], [0x64, 0x65]] : List (List Nat)).flatten = [0x61, 0x62, 0x63, 0x64, 0x65] := by decide
+    rw [h1] at h
+    match n, h with
+    | 0, h => cases m <;> simp [nlOf, NL] at h
+    | 1, h => cases m <;> simp [nlOf, NL] at h
+    | n + 2, h => simp at h
 
 /-- `filled ≤ initialized ≤ capacity` -/
 def ReadBuf.WF (b : ReadBuf) : Prop := b.filled ≤ b.init ∧ b.init ≤ b.cap
@@ -283,17 +371,36 @@ example : (printMacro true [.str [1, 2, 3], .str [], .str [4, 5]] [.accept 2, .a
 example : ∀ r ∈ ([.accept 2, .accept 5, .accept 1] : List WResp).take
     (printMacro true ([[1, 2, 3], [4, 5]].map .str) [.accept 2, .accept 5, .accept 1]).used, r.pos = true := by decide
 
-/-- the hypothesis of `print_macro_in_order_partial` holds for a script with an EINTR and a `0` answered to the
-zero-length write of an empty piece (and fails for a `0` answered to a non-empty one) -/
-example : (∀ c ∈ (printMacro true ([[1, 2], [], [3, 4]].map .str) [.accept 1, .accept 1, .accept 0, .eintr, .accept 1]).calls
-      [.accept 1, .accept 1, .accept 0, .eintr, .accept 1], badZero c = false) ∧
-    (printMacro true ([[1, 2], [], [3, 4]].map .str) [.accept 1, .accept 1, .accept 0, .eintr, .accept 1]).sink = [1, 2, 10] ∧
-    ¬ (∀ c ∈ (printMacro false ([[1, 2]].map .str) [.accept 0]).calls [.accept 0], badZero c = false) := by decide
+/-- the hypothesis of `print_macro_complete` / `print_seq_complete` (no failing call) holds for a script with short
+writes and a `0` answered to the zero-length write of an empty piece — the whole message and the newline arrive —
+and fails for an EINTR and for a `0` answered to a non-empty buffer -/
+example : (∀ c ∈ (printMacro true ([[1, 2], [], [3, 4]].map .str) [.accept 1, .accept 1, .accept 0, .accept 1, .accept 1, .accept 1]).calls
+      [.accept 1, .accept 1, .accept 0, .accept 1, .accept 1, .accept 1], failing c = false) ∧
+    (printMacro true ([[1, 2], [], [3, 4]].map .str) [.accept 1, .accept 1, .accept 0, .accept 1, .accept 1, .accept 1]).sink = [1, 2, 3, 4, 10] ∧
+    ¬ (∀ c ∈ (printMacro true ([[1, 2], [], [3, 4]].map .str) [.accept 1, .accept 1, .accept 0, .eintr, .accept 1]).calls
+      [.accept 1, .accept 1, .accept 0, .eintr, .accept 1], failing c = false) ∧
+    ¬ (∀ c ∈ (printMacro false ([[1, 2]].map .str) [.accept 0]).calls [.accept 0], failing c = false) := by decide
 
-/-- EINTR is not retried: the message is cut at that point (`Err`), the newline of `println!` is still attempted;
+/-- the second alternative of `print_exact` is taken by real runs: `0` answered to the non-empty rest of a piece ends
+the message there with `Err`, the failing call is the last one, the later piece is not written and its answer stays
+unconsumed; `0` answered to an empty piece is `Ok` and the message goes on -/
+example : (printMacro false ([[1, 2, 3], [4]].map .str) [.accept 1, .accept 0, .accept 1]).sink = [1] ∧
+    (printMacro false ([[1, 2, 3], [4]].map .str) [.accept 1, .accept 0, .accept 1]).res = .err .formatter ∧
+    (printMacro false ([[1, 2, 3], [4]].map .str) [.accept 1, .accept 0, .accept 1]).calls [.accept 1, .accept 0, .accept 1] =
+      [(3, .accept 1), (2, .accept 0)] ∧
+    (printMacro false ([[1, 2, 3], [4]].map .str) [.accept 1, .accept 0, .accept 1]).rest = [.accept 1] ∧
+    (printMacro false ([[], [4]].map .str) [.accept 0, .accept 1]).sink = [4] ∧
+    (printMacro false ([[], [4]].map .str) [.accept 0, .accept 1]).res = .ok () := by decide
+
+/-- `println_exact` on real runs: after a message cut by a `0` (or an EINTR — not retried) the newline is still
+written ("prefix, then newline"); it is lost when its own answer is `0` or an error;
 `print!("")` issues one zero-length write; a failing `Display` impl stops the message without a write -/
-example : (printMacro true [.str [1, 2, 3], .str [4]] [.accept 1, .eintr, .accept 1]).sink = [1, 10] ∧
+example : (printMacro true [.str [1, 2, 3], .str [4]] [.accept 1, .accept 0, .accept 1]).sink = [1, 10] ∧
+    (printMacro true [.str [1, 2, 3], .str [4]] [.accept 1, .accept 0, .accept 1]).log = [3, 2, 1] ∧
+    (printMacro true [.str [1, 2, 3], .str [4]] [.accept 1, .eintr, .accept 1]).sink = [1, 10] ∧
     (printFmt [.str [1, 2, 3], .str [4]] [.accept 1, .eintr, .accept 1]).res = .err .formatter ∧
+    (printMacro true [.str [1, 2, 3], .str [4]] [.accept 3, .accept 1, .accept 0]).sink = [1, 2, 3, 4] ∧
+    (printMacro true [.str [1, 2, 3], .str [4]] [.accept 1, .accept 0, .err 5]).sink = [1] ∧
     (printMacro false [.str []] [.err 5]).used = 1 ∧
     (printMacro true [.str [1], .fail, .str [2]] []).sink = [1, 10] := by decide
 
